@@ -178,45 +178,37 @@ Proof.
   destruct (Hw j Hj) as (ra & b & H1 & H2 & H3). exists ra, b. auto.
 Qed.
 
-(* classify only ever reports a Retry-After for a 429 *)
-Lemma classify_ra_429 : forall f r, classify f = KRetry (Some r) ->
-  exists hdr det, f = FStatus 429 hdr det /\ retry_after hdr det = Some r.
-Proof.
-  intros f r H. destruct f; simpl in H; try discriminate.
-  destruct (code <? 400); [discriminate|].
-  destruct (code =? 401); [discriminate|].
-  destruct (code =? 403); [discriminate|].
-  destruct (code =? 429) eqn:E.
-  - apply Z.eqb_eq in E. subst. injection H as H. eauto.
-  - destruct (code <? 500); [discriminate|]. destruct (code <? 600); discriminate.
-Qed.
-
-(* the server-requested delay of a fault, as the property reads it: any status may carry one *)
+(* the server-requested delay of a fault, as the property reads it: any error status may carry one *)
 Definition requested (f : fault) : option Z :=
   match f with FStatus c hdr det => if c <? 400 then None else retry_after hdr det | _ => None end.
 
-Definition is_429 (f : fault) : bool := match f with FStatus c _ _ => c =? 429 | _ => false end.
+(* what the retry branch looks at IS the server-requested delay, for every retried fault *)
+Lemma classify_retry_requested : forall f ra, classify f = KRetry ra -> ra = requested f.
+Proof.
+  intros f ra H. destruct f; simpl in H; try discriminate; try (injection H as <-; reflexivity).
+  simpl. destruct (code <? 400); [discriminate|].
+  destruct (code =? 401); [discriminate|].
+  destruct (code =? 403); [injection H as <-; reflexivity|].
+  destruct (code =? 429); [injection H as <-; reflexivity|].
+  destruct (code <? 500); [discriminate|].
+  destruct (code <? 600); [injection H as <-; reflexivity|discriminate].
+Qed.
 
-Lemma wait_ge_retry_after_429 : forall enforce src fs j r,
+(* never waiting less than a server-requested Retry-After: every retried fault, every backoff source, enforce on/off *)
+Lemma wait_ge_retry_after : forall enforce src fs j r,
   (j < length (waits_of (request enforce src O fs)))%nat ->
-  is_429 (nthf j fs) = true -> requested (nthf j fs) = Some r ->
+  requested (nthf j fs) = Some r ->
   r <= nth j (waits_of (request enforce src O fs)) 0.
 Proof.
-  intros enforce src fs j r Hj H429 Hreq.
+  intros enforce src fs j r Hj Hreq.
   destruct (wait_value enforce src fs j Hj) as (ra & b & Hc & Hs & Hw). rewrite Hw.
-  destruct (nthf j fs); simpl in H429; try discriminate. apply Z.eqb_eq in H429. subst code.
-  simpl in Hreq, Hc. injection Hc as <-. rewrite Hreq. apply adjust_ge_ra.
+  rewrite (classify_retry_requested _ _ Hc), Hreq. apply adjust_ge_ra.
 Qed.
 
-(* full statement (any transient fault with a Retry-After) is false of the faithful model: 5xx *)
-Lemma wait_ge_retry_after_refuted :
-  exists enforce l fs j r,
-    (j < length (waits_of (request enforce (src_list l) O fs)))%nat /\
-    requested (nthf j fs) = Some r /\
-    nth j (waits_of (request enforce (src_list l) O fs)) 0 < r.
-Proof.
-  exists false, [1; 2; 3], [FStatus 503 (Some 7) None], O, 7. vm_compute. repeat split; auto.
-Qed.
+(* regression of finding F1201 (fixed by 69e02a7): a 503 with Retry-After 7 against backoffs (1,2,3) waits 7 *)
+Example retry_after_503 :
+  request_obs false (src_list [1; 2; 3]) [FStatus 503 (Some 7) None] = ([0; 7], ODone).
+Proof. vm_compute. reflexivity. Qed.
 
 (* without enforce every wait is at least the configured backoff *)
 Lemma wait_ge_backoff : forall src fs j b,
@@ -228,17 +220,29 @@ Proof.
   rewrite Hb in Hs. injection Hs as <-. apply adjust_ge_backoff.
 Qed.
 
-(* faults other than 429 wait exactly the configured backoff *)
+(* faults that carry no Retry-After wait exactly the configured backoff *)
 Lemma wait_exact_backoff : forall enforce src fs j b,
   (j < length (waits_of (request enforce src O fs)))%nat -> src j = Some b ->
-  is_429 (nthf j fs) = false ->
+  requested (nthf j fs) = None ->
   nth j (waits_of (request enforce src O fs)) 0 = b.
 Proof.
   intros enforce src fs j b Hj Hb Hn.
   destruct (wait_value enforce src fs j Hj) as (ra & b' & Hc & Hs & Hw). rewrite Hw.
   rewrite Hb in Hs. injection Hs as <-.
-  destruct ra as [r|]; [|reflexivity].
-  destruct (classify_ra_429 _ _ Hc) as (h & d & Hf & _). rewrite Hf in Hn. simpl in Hn. discriminate.
+  rewrite (classify_retry_requested _ _ Hc), Hn. reflexivity.
+Qed.
+
+(* with a Retry-After r: max(backoff, r) without enforce_retry_after, r with it *)
+Lemma wait_with_retry_after : forall enforce src fs j b r,
+  (j < length (waits_of (request enforce src O fs)))%nat -> src j = Some b ->
+  requested (nthf j fs) = Some r ->
+  nth j (waits_of (request enforce src O fs)) 0 = if enforce then r else Z.max b r.
+Proof.
+  intros enforce src fs j b r Hj Hb Hr.
+  destruct (wait_value enforce src fs j Hj) as (ra & b' & Hc & Hs & Hw). rewrite Hw.
+  rewrite Hb in Hs. injection Hs as <-.
+  rewrite (classify_retry_requested _ _ Hc), Hr.
+  destruct enforce; [apply adjust_enforce|apply adjust_is_max].
 Qed.
 
 (* ---------- immediate escalation ---------- *)
